@@ -122,7 +122,7 @@ theorem poolUpdateRecord_absent {w : World} {pl : Nat} {x : Pool} (hx : w.pools[
 /-- `update_record`: the caller's record grows by `amt`, or is created with `amt` -/
 theorem poolUpdateRecord_upd {w : World} {pl : Nat} {v : PView} (hv : poolView w pl = some v)
     (ok : HoldersOK w.procs.size v.holders) (hn : w.procs.size < 2 ^ 31) {p : Pid} (hp : p < w.procs.size)
-    (lk : Linked w pl v.holders) (amt : Nat) :
+    (lk : Linked w pl v.holders) (amt : Nat) (hamt : 0 < amt) :
     ∃ h', PoolUpd w (poolUpdateRecord w pl p amt) pl ⟨v.cap, v.inUse, h'⟩ ∧
       HoldersOK w.procs.size h' ∧ Linked (poolUpdateRecord w pl p amt) pl h' ∧
       amounts (abs h') = amounts (abs v.holders) + amt ∧
@@ -140,6 +140,7 @@ theorem poolUpdateRecord_upd {w : World} {pl : Nat} {v : PView} (hv : poolView w
     rw [poolUpdateRecord_present hx hc hfi hi0]
     obtain ⟨ok', hsum, hkeys, hamt', hamt, hoth⟩ := withItem_holders ok hi
       ⟨(x.holders.tag i).item.a, (x.holders.tag i).item.b + amt, (x.holders.tag i).item.c, (x.holders.tag i).item.d⟩
+      (by show 0 < (x.holders.tag i).item.b + amt; omega)
     refine ⟨_, setHolders_upd hx _, ok', ?_, ?_, ?_, ?_⟩
     · intro q; rw [hkeys]; exact lk q
     · simp only at hsum; omega
@@ -150,7 +151,7 @@ theorem poolUpdateRecord_upd {w : World} {pl : Nat} {v : PView} (hv : poolView w
       by_cases hc : x.holders.count = 0
       · exact Or.inl hc
       · exact Or.inr (HashHeap.findIndex_of_not_mem ok.wf hk))]
-    obtain ⟨h', hrun, ok', hsum, hkeys, hamt', hoth⟩ := enqueue_holders ok hn hp hk ⟨p + 1, amt, 0, 0⟩ 0
+    obtain ⟨h', hrun, ok', hsum, hkeys, hamt', hoth⟩ := enqueue_holders ok hn hp hk ⟨p + 1, amt, 0, 0⟩ hamt 0
       ((w.modProc p fun y => { y with held := .pool pl :: y.held }).proc p).prio
     rw [hrun]
     dsimp only
@@ -222,18 +223,18 @@ theorem PSt.setInUse {w0 w : World} {pl : Nat} {v : PView} (h : PSt w0 w pl v) (
   exact ⟨h.upd.trans hu, h.hok, fun q => by rw [hh q]; exact h.lk q⟩
 
 theorem PSt.update {w0 w : World} {pl : Nat} {v : PView} (h : PSt w0 w pl v) (hn : w0.procs.size < 2 ^ 31)
-    {p : Pid} (hp : p < w0.procs.size) (amt : Nat) :
+    {p : Pid} (hp : p < w0.procs.size) (amt : Nat) (hamt : 0 < amt) :
     ∃ h', PSt w0 (poolUpdateRecord w pl p amt) pl ⟨v.cap, v.inUse, h'⟩ ∧
       amounts (abs h') = amounts (abs v.holders) + amt ∧
       amountOf (abs h') (p + 1) = amountOf (abs v.holders) (p + 1) + amt ∧
       (∀ k, k ≠ p + 1 → amountOf (abs h') k = amountOf (abs v.holders) k) := by
   have hs := h.size
   obtain ⟨h', hu, ok', lk', hsum, hamt, hoth⟩ := poolUpdateRecord_upd h.upd.view (by rw [hs]; exact h.hok)
-    (by rw [hs]; exact hn) (by rw [hs]; exact hp) h.lk amt
+    (by rw [hs]; exact hn) (by rw [hs]; exact hp) h.lk amt hamt
   exact ⟨h', ⟨h.upd.trans hu, by rw [← hs]; exact ok', lk'⟩, hsum, hamt, hoth⟩
 
 theorem PSt.setHeld {w0 w : World} {pl : Nat} {v : PView} (h : PSt w0 w pl v) {p : Pid}
-    (hk : p + 1 ∈ keys (abs v.holders)) (a : Nat) :
+    (hk : p + 1 ∈ keys (abs v.holders)) (a : Nat) (ha : 0 < a) :
     ∃ h', PSt w0 (setHeldAmount w pl p a) pl ⟨v.cap, v.inUse, h'⟩ ∧
       amounts (abs h') + amountOf (abs v.holders) (p + 1) = amounts (abs v.holders) + a ∧
       amountOf (abs h') (p + 1) = a ∧
@@ -248,7 +249,7 @@ theorem PSt.setHeld {w0 w : World} {pl : Nat} {v : PView} (h : PSt w0 w pl v) {p
   have hi0 : i ≠ 0 := by have := hi.1; omega
   rw [setHeldAmount_present hx hfi hi0]
   obtain ⟨ok', hsum, hkeys, hamt', hamt, hoth⟩ := withItem_holders ok hi
-    ⟨(x.holders.tag i).item.a, a, (x.holders.tag i).item.c, (x.holders.tag i).item.d⟩
+    ⟨(x.holders.tag i).item.a, a, (x.holders.tag i).item.c, (x.holders.tag i).item.d⟩ ha
   rw [hki] at hamt' hamt hoth
   refine ⟨_, ⟨h.upd.trans (setHolders_upd hx _), ok', ?_⟩, ?_, hamt', hoth⟩
   · intro q; rw [hkeys]; exact h.lk q
